@@ -109,6 +109,27 @@ def run(R, tier, seed, driver_ok):
                 except Exception as e:
                     if not (name.startswith('SDML') and isinstance(e, RuntimeError)):
                         R.violation(f'{name}/swap-raises-{type(e).__name__}', f'{name}: fit on swapped tuples raised {type(e).__name__}', case)
+                # … and on a tuple set that lists some tuples several times, the swap applied to only some of the copies
+                if name in ('ITML', 'MMC', 'LSML'):
+                    lab = fa[1] if len(fa) > 1 else None
+                    rr = zoo.with_repeats(rng, np.column_stack([idx, np.arange(len(idx))]))       # (row ids ride along)
+                    idx_r, src = rr[:, :-1], rr[:, -1]
+                    rest_r = (np.asarray(lab)[src],) if lab is not None else ()
+                    sw_r = rng.rand(len(idx_r)) < 0.5
+                    idx_r2 = idx_r.copy()
+                    idx_r2[sw_r] = idx_r[sw_r][:, [1, 0, 3, 2]] if name == 'LSML' else idx_r[sw_r][:, ::-1]
+                    case = {'est': name, 'relation': 'swap-with-repeats', 'X': X, 'tuples': idx_r, 'swapped': sw_r}
+                    R.case(('c19', name, 'swap-with-repeats', X.tobytes().hex()[:40]), True, branch='swap-with-repeats')
+                    try:
+                        with warnings.catch_warnings():
+                            warnings.simplefilter('ignore')
+                            e_a = zoo.CLASSES[name](**params).fit(X[idx_r], *rest_r)
+                            e_b = zoo.CLASSES[name](**params).fit(X[idx_r2], *rest_r)
+                        da, db = e_a.pair_distance(Qp), e_b.pair_distance(Qp)
+                        if np.abs(da - db).max() > 1e-9 * max(np.abs(da).max(), 1e-300):
+                            R.violation(f'{name}/swap', f'{name}: learned distances change when the two points are exchanged inside some copies of repeated tuples (max relative deviation {np.abs(da - db).max() / max(np.abs(da).max(), 1e-300):.3g})', case)
+                    except Exception as e:
+                        R.violation(f'{name}/swap-raises-{type(e).__name__}', f'{name}: fit on repeated / swapped tuples raised {type(e).__name__}: {str(e)[:100]}', case)
             # ---- permutation of the samples
             if name in ('Covariance', 'RCA'):
                 p = rng.permutation(n)
